@@ -155,7 +155,7 @@ fn alphabets() -> Vec<(&'static str, Vec<u8>)> {
 // ---------------------------------------------------------------------------------------------
 
 pub fn f64s() -> Vec<f64> {
-    vec![0.0, 1.0, f64::NAN, f64::INFINITY, f64::NEG_INFINITY, -0.0, 5e-324, 1e-9, 9007199254740992.0 / 90000.0, 1e15, 1e300, f64::MAX, -1.0, 2.0]
+    vec![0.0, 1.0, f64::NAN, f64::INFINITY, f64::NEG_INFINITY, -0.0, 5e-324, 1e-9, 9007199254740992.0 / 90000.0, 1e15, 1e300, f64::MAX, -1.0, 2.0, (9223372036854775808.0 - 90000.0) / 90000.0, (9223372036854775808.0 + 90000.0) / 90000.0]
 }
 
 fn video_datas(c: VCodec) -> Vec<(&'static str, Vec<u8>)> {
@@ -165,6 +165,9 @@ fn video_datas(c: VCodec) -> Vec<(&'static str, Vec<u8>)> {
         ("delta", frames::video_frame(c, false, false, 2, 4).0),
         ("one-byte", vec![0x01]),
         ("two-start-codes", vec![0, 0, 1, 0, 0, 1, 0x65]),
+        ("start-code-only", vec![0, 0, 0, 1]),
+        ("start-codes-only", vec![0, 0, 1, 0, 0, 0, 1]),
+        ("zeros", vec![0, 0, 0]),
         ("marker-only", vec![0x49, 0x83, 0x42]),
     ]
 }
@@ -331,6 +334,31 @@ fn prefixes() -> Vec<(&'static str, Vec<Call>)> {
     ]
 }
 
+fn stateful_one(cfg: &MCfg, prefix: &[Call], failing_sink: bool, c: &Call, vd: &[(&'static str, Vec<u8>)], ad: &[(&'static str, Vec<u8>)]) -> Result<(), String> {
+    guarded(|| {
+        let st = Rc::new(RefCell::new(FaultState::default()));
+        let script = if failing_sink { Script { answers: vec![(1, crate::faults::Ans::ErrOther)], budget: None } } else { Script::default() };
+        let sink = FaultSink { st, script: Rc::new(script) };
+        let mut m = match build_mux(cfg, sink) {
+            Ok(m) => m,
+            Err(e) => {
+                let _ = e.to_string();
+                return;
+            }
+        };
+        for p in prefix {
+            do_call(&mut m, p, vd, ad);
+        }
+        if failing_sink {
+            do_call(&mut m, &Call::FinIn, vd, ad); // failed finish
+        }
+        do_call(&mut m, c, vd, ad);
+        // whatever was accepted must also be finishable without a panic
+        do_call(&mut m, &Call::FinInStats, vd, ad);
+        do_call(&mut m, &Call::FinIn, vd, ad);
+    })
+}
+
 fn stateful_item(cfg: &MCfg, idx: u64, t: &mut Tally) {
     let vd = video_datas(cfg.codec);
     let ad = audio_datas(cfg.audio.map(|a| a.0));
@@ -348,33 +376,12 @@ fn stateful_item(cfg: &MCfg, idx: u64, t: &mut Tally) {
                 k += 1;
                 t.evaluations += 1;
                 t.states += 1;
-                let run = guarded(|| {
-                    let st = Rc::new(RefCell::new(FaultState::default()));
-                    let script = if failing_sink { Script { answers: vec![(1, crate::faults::Ans::ErrOther)], budget: None } } else { Script::default() };
-                    let sink = FaultSink { st, script: Rc::new(script) };
-                    let mut m = match build_mux(cfg, sink) {
-                        Ok(m) => m,
-                        Err(e) => {
-                            let _ = e.to_string();
-                            return;
-                        }
-                    };
-                    for p in &prefix {
-                        do_call(&mut m, p, &vd, &ad);
-                    }
-                    if failing_sink {
-                        do_call(&mut m, &Call::FinIn, &vd, &ad); // failed finish
-                    }
-                    do_call(&mut m, c, &vd, &ad);
-                    // whatever was accepted must also be finishable without a panic
-                    do_call(&mut m, &Call::FinInStats, &vd, &ad);
-                    do_call(&mut m, &Call::FinIn, &vd, &ad);
-                });
+                let run = stateful_one(cfg, &prefix, failing_sink, c, &vd, &ad);
                 if let Err(p) = run {
                     // the panic may arise in the call itself or in the finish that follows it; the
                     // panic class (message) identifies the site, the case records the call
                     let entry = "Muxer";
-                    report(t, entry, &p, (idx, k), || json!({"engine": "E2-c12-stateful", "cfg": format!("{cfg:?}"), "state": pname, "failed_finish_first": failing_sink, "call": format!("{c:?}")}));
+                    report(t, entry, &p, (idx, k), || json!({"engine": "E2-c12-stateful", "cfg": format!("{cfg:?}"), "state": pname, "failed_finish_first": failing_sink, "call": format!("{c:?}"), "cfg_idx": mcfgs().iter().position(|x| format!("{x:?}") == format!("{cfg:?}")), "call_idx": all.iter().position(|x| format!("{x:?}") == format!("{c:?}"))}));
                 }
             }
         }
@@ -906,6 +913,26 @@ pub fn replay(case: &Value) -> i32 {
             let s = case["creation_time"].as_u64().unwrap_or(0);
             println!("replaying finish with creation time {s} (may take long on an unrepaired tree)");
             child_time(s).min(1)
+        }
+        Some("E2-c12-stateful") if case["cfg_idx"].is_u64() && case["call_idx"].is_u64() => {
+            let cfgs = mcfgs();
+            let Some(cfg) = cfgs.get(case["cfg_idx"].as_u64().unwrap() as usize) else { return 2 };
+            let vd = video_datas(cfg.codec);
+            let ad = audio_datas(cfg.audio.map(|a| a.0));
+            let all = calls(vd.len(), ad.len());
+            let Some(c) = all.get(case["call_idx"].as_u64().unwrap() as usize) else { return 2 };
+            let Some((_, prefix)) = prefixes().into_iter().find(|(n, _)| Some(*n) == case["state"].as_str()) else { return 2 };
+            println!("replaying {cfg:?}: state {:?}, call {c:?}, then finish", case["state"]);
+            match stateful_one(cfg, &prefix, case["failed_finish_first"].as_bool().unwrap_or(false), c, &vd, &ad) {
+                Ok(()) => {
+                    println!("replay: property C12 holds for this case (no panic)");
+                    0
+                }
+                Err(p) => {
+                    println!("replay: VIOLATION panic: {p}");
+                    1
+                }
+            }
         }
         _ => {
             println!("replay for this C12 case: see the 'case' object (configuration, state, call); re-run ./check C12 quick");
